@@ -7,7 +7,7 @@ LEVEL = 'proof'
 RULE = ('dict stage: tree.to_dict() of the implementation, read through a fail-closed decoder (documented node types and keys only), vs the '
         'extracted Gallina to_dict on generated documents, mutations and token soup for all root rules and fragment rules; oracle: text '
         'nodes carry a string and nothing else, markers no children, block nodes no hier children, json.dumps/loads round trip equal, '
-        'to_dict() twice gives equal dicts and leaves class-level defaults untouched, XML built from the reloaded dict equals XML built from '
+        'to_dict() twice gives equal dicts and leaves every class-level data attribute of bluebell.types untouched, XML built from the reloaded dict equals XML built from '
         'the parse tree. non-trivial = dict with >= 5 nodes; distinct by (rule, text).')
 TRUSTED_BASE = [
     'Coq 8.16.1 kernel; no axioms',
@@ -25,6 +25,17 @@ def walk(d):
         for k in d.get(key, []) or []:
             yield from walk(k)
 
+def types_state():
+    """every class-level data attribute of bluebell.types (tables, defaults, compiled regexes by pattern): to_dict must leave them alone"""
+    import bluebell.types as T, inspect
+    out = []
+    for cn, cls in sorted(vars(T).items()):
+        if not inspect.isclass(cls) or cls.__module__ != T.__name__: continue
+        for k, v in sorted(vars(cls).items()):
+            if k.startswith('__') or callable(v) or isinstance(v, (property, staticmethod, classmethod)): continue
+            out.append((cn, k, getattr(v, 'pattern', None) or repr(v)))
+    return out
+
 def _oracle(args):
     rule, text = args
     import sys
@@ -36,6 +47,7 @@ def _oracle(args):
     except Exception as e:
         return ('raised', impl.exc_kind(e), 0)
     defaults_before = repr((T.Remark.default_attribs, T.StandardInline.default_attribs, T.Inline.default_attribs))
+    state_before = types_state()
     try:
         d1 = tree.to_dict()
         d2 = tree.to_dict()
@@ -44,6 +56,10 @@ def _oracle(args):
     if d1 != d2: return ('bad', 'to_dict() is not repeatable', 0)
     if repr((T.Remark.default_attribs, T.StandardInline.default_attribs, T.Inline.default_attribs)) != defaults_before:
         return ('bad', 'to_dict() changed class-level defaults', 0)
+    state_after = types_state()
+    if state_after != state_before:
+        ch = [a[:2] for a, b in zip(state_before, state_after) if a != b][:3]
+        return ('bad', 'to_dict() changed class-level state of bluebell.types: %s' % ch, 0)
     try:
         impl.dict_to_sx(d1)
     except impl.ContractError as e:
